@@ -104,6 +104,8 @@ def make_replayer():
             want = ['sum-value']
         if ob.kind.startswith('minmax-') or ob.kind.startswith('max-'):
             want = ['minmax-accepts']
+        if ob.kind.startswith('operator-'):
+            want = ['binop-value', 'index-value']
         if ob.kind.startswith('binop-'):
             want = ['binop-value', 'binop-fresh']
         if ob.kind.startswith('key-'):
@@ -170,6 +172,16 @@ def run(report, tier, seed):
         report.add(Ob(o['id'], o['kind'], o['status'], o['text'],
                       'modeling.py line %s' % o['line'], by=o['by'],
                       detail=o.get('detail'), meta={'line': o['line']}))
+    from contracts.py import relational_spec
+    try:
+        for o in relational_spec.obligations():
+            if o['kind'] == 'relation-direction':
+                continue            # C12's
+            report.add(Ob(o['id'], o['kind'], o['status'], o['text'],
+                          'modeling.py', by=o['by'], detail=o.get('detail'),
+                          meta={'line': o['line']}))
+    except KeyError as e:
+        report.error('function under contract no longer exists: %s' % e)
     from contracts.py import keytolist_spec
     for name, text, hyp, goal in keytolist_spec.filter_lemma():
         t0 = time.time()
